@@ -318,8 +318,19 @@ def check_sly_resolver(ctx):
     # defaults and the reduce/reduce rule
     defaults = [n for n in ast.walk(fn) if isinstance(n, ast.Call) and norm(n.func) == 'Precedence.get']
     ctx.need(len(defaults) >= 2, 'sly resolver: Precedence.get(...) calls not found')
+    def const_of(e):
+        # a literal, or a local name bound exactly once (anywhere in the function) to a literal
+        if isinstance(e, ast.Name):
+            defs = [a.value for a in ast.walk(fn) if isinstance(a, ast.Assign) and any(isinstance(t, ast.Name) and t.id == e.id for t in a.targets)]
+            stores = [x for x in ast.walk(fn) if isinstance(x, ast.Name) and x.id == e.id and isinstance(x.ctx, ast.Store)]
+            if len(defs) == 1 and len(stores) == 1:
+                e = defs[0]
+        try:
+            return ast.literal_eval(e)
+        except (ValueError, SyntaxError):
+            return None
     for i, c in enumerate(defaults):
-        ok = len(c.args) == 2 and norm(c.args[1]) == "('right', 0)"
+        ok = len(c.args) == 2 and const_of(c.args[1]) == ('right', 0)
         ctx.ob('C03.sly-default-prec', f'Precedence.get#{i}', ok,
                f'sly/yacc.py: default precedence of a token without level is {norm(c.args[1]) if len(c.args) > 1 else "missing"}, '
                f"expected ('right', 0)", file=file, line=c.lineno)
